@@ -1201,6 +1201,25 @@ func runUnconfirmedNotClaimed(c *Ctx) {
 				}
 				if reservationIndex(st.f, finfo, as, ix.Index) && reservationIndex(st.f, finfo, as, as.Rhs[0]) {
 					cleared, clearPos = true, as.Pos()
+					// (round 15) the clearing is not made to depend on anything but the bounds of the copy
+					for _, anc := range pathTo(st.f.Body, as) {
+						if is, ok := anc.(*ast.IfStmt); ok {
+							boundsOnly := false
+							ast.Inspect(is.Cond, func(k ast.Node) bool {
+								if call, ok := k.(*ast.CallExpr); ok && len(call.Args) == 1 {
+									if id, ok := call.Fun.(*ast.Ident); ok && id.Name == "len" && ObjOf(finfo, call.Args[0]) == st.obj {
+										boundsOnly = true
+									}
+								}
+								return true
+							})
+							if !boundsOnly {
+								c.Bad("unconfirmed/flush/unconditional", is.Pos(), "Sidecar.Flush clears the reservations only under `"+types.ExprString(is.Cond)+"`: whenever that does not hold the metadata on disk claim the chunks under comparison - "+
+									"all bits set in memory does not mean the file is complete: the chunk handed to the sender may be damaged while the last missing chunks arrive")
+								before = false
+							}
+						}
+					}
 					if st.f == flush {
 						clearedObjs[st.obj] = true
 					} else if marshalled != nil {
